@@ -157,8 +157,8 @@ def boundary_fractions(mass, nmax=8):
 
 def corr_lists(peaks, mpeaks, z):
     """impl vs model peak lists.  Variants are about 1/|z| apart, so peaks are aligned by m/z; an aligned pair must
-    agree (m/z to 1e-9 relative when it carries >= 1e-9 of the signal, to 1e-6 relative below that — the centre of
-    a variant with a share of 1e-10 is a quotient of two numbers that small —, intensity to 1e-7 relative + 1e-13);
+    agree (m/z to 1e-9 relative when it carries >= 1e-4 of the signal, to 1e-13 / share below that, at most 1e-6 — the
+    centre of a variant with a small share is a quotient of two numbers that small —, intensity to 1e-7 relative + 1e-13);
     a peak present on one side only is tolerated only below 2e-10: the cut sits at 1e-10 and the property asks for
     completeness from 2e-10 on.  Returns None or a description of the first disagreement."""
     gap = Fraction(1, 5 * max(1, abs(z)))
@@ -168,8 +168,11 @@ def corr_lists(peaks, mpeaks, z):
         a = peaks[i] if i < len(peaks) else None
         b = mpeaks[j] if j < len(mpeaks) else None
         if a is not None and b is not None and abs(a[0] - b[0]) < gap:
-            big = max(a[1], b[1]) >= Fraction(1, 10 ** 9)
-            if not close(a[0], b[0], rel=1e-9 if big else 1e-6):
+            # (the centre of a variant is a quotient whose numerator is a sum with cancellation: its rounding error is
+            # relative to the summands, i.e. it grows like u / share — 1e-9 down to a share of 1e-4, 1e-13 / share below,
+            # never looser than 1e-6)
+            share = float(max(a[1], b[1]))
+            if not close(a[0], b[0], rel=min(1e-6, max(1e-9, 1e-13 / max(share, 1e-300)))):
                 return f"m/z {float(a[0]):.9f} vs model {float(b[0]):.9f} (intensity {float(b[1]):.3e})"
             if not close(a[1], b[1], rel=1e-7, abs_=1e-13):
                 return f"intensity {float(a[1]):.12e} vs model {float(b[1]):.12e} at m/z {float(b[0]):.6f}"
